@@ -52,10 +52,10 @@ func runC07(r *Run) {
 	r.rule("C07.R1", "the five key families are written/deleted only from key-management entry points (SetConsKey, opt-in/out, dogfood EndBlock and operator hooks, operator InitGenesis)", 5)
 	r.rule("C07.R2", "index agreement: a function that stores one of {operator->key, chain->operator->key, chain->consAddr->operator} stores all three; key removal deletes the three plus the removal marker; codec and key-constructor agreement of the operator key families", 8)
 	r.rule("C07.R3", "injectivity guards: storing a key is dominated by !IsOperatorRemovingKeyFromChainID and !keyInUse(chain, the stored consensus address); the previous key is recorded only when none is recorded yet", 4)
-	r.rule("C07.R4", "reverse-lookup retention: DeleteOperatorAddressForChainIDAndConsAddr is called only from the dogfood pruning loop and from the hooks' arms where the key is not in the validator set", 3)
-	r.rule("C07.R5", "pruning schedule: a replaced key that is in the validator set is queued at GetUnbondingCompletionEpoch; an opt-out of an active key registers the opt-out information", 2)
+	r.rule("C07.R4", "reverse-lookup retention: DeleteOperatorAddressForChainIDAndConsAddr is called only from the dogfood pruning loop and from the hooks' arms where the key is not in the validator set", 2)
+	r.rule("C07.R5", "pruning schedule: a replaced key that is in the validator set is queued at GetUnbondingCompletionEpoch; an opt-out of a validating operator registers the opt-out information, any other opt-out completes the key removal at once", 3)
 	r.rule("C07.R6", "slash, jail and validator lookup by consensus address resolve the operator through the reverse lookup and are gated by it alone; only active operators opt out", 7)
-	r.rule("C07.R7", "every chain-id argument handed to the operator keeper from the dogfood module derives from ChainIDWithoutRevision (or is a hook parameter)", 8)
+	r.rule("C07.R7", "every chain-id argument handed to the operator keeper from the dogfood module derives from ChainIDWithoutRevision (or is a hook parameter)", 5)
 
 	names := []string{"BytePrefixForOperatorAndChainIDToConsKey", "BytePrefixForOperatorAndChainIDToPrevConsKey", "BytePrefixForChainIDAndOperatorToConsKey", "BytePrefixForChainIDAndConsKeyToOperator", "BytePrefixForOperatorKeyRemovalForChainID"}
 	fam := map[string]string{}
@@ -255,7 +255,7 @@ func runC07(r *Run) {
 			}
 		}
 	}
-	if nDel < 3 {
+	if nDel < 2 {
 		r.bad("C07.R4", "delete-site|count", "-", "deletion sites found", fmt.Sprintf("only %d call sites of DeleteOperatorAddressForChainIDAndConsAddr found", nDel))
 	}
 	if hv := w.View("x/dogfood/keeper", "OperatorHooksWrapper.AfterOperatorKeyReplaced"); hv != nil {
@@ -286,20 +286,51 @@ func runC07(r *Run) {
 		r.bad("C07.R5", "replaced|anchor", "-", "anchor", "AfterOperatorKeyReplaced not found")
 	}
 	if hv := w.View("x/dogfood/keeper", "OperatorHooksWrapper.AfterOperatorKeyRemovalInitiated"); hv != nil {
+		// "validating" = the current key, or the key it replaced earlier in this epoch, is in the validator set:
+		// a boolean every definition of which is the found-result of GetExocoreValidator
+		validating := func(at ast.Node, truth bool) bool {
+			for _, ft := range hv.FactsAt(at, false) {
+				if ft.Truth != truth {
+					continue
+				}
+				if o := hv.outcome(ft); o != nil && o.Callee.Name() == "GetExocoreValidator" && o.Result == 1 {
+					return true
+				}
+				id, isID := stripParens(ft.Atom).(*ast.Ident)
+				if !isID {
+					continue
+				}
+				defs := hv.defsOf(hv.objOf(id))
+				all := len(defs) > 0
+				for _, d := range defs {
+					if c, isC := stripParens(d).(*ast.CallExpr); !isC || hv.calleeName(c) != "GetExocoreValidator" {
+						all = false
+					}
+				}
+				if all {
+					return true
+				}
+			}
+			return false
+		}
 		ok, n := true, 0
 		for _, c := range hv.CallsNamed("SetOptOutInformation") {
 			n++
-			active := false
-			for _, ft := range hv.FactsAt(c, false) {
-				if o := hv.outcome(ft); o != nil && o.Callee.Name() == "GetExocoreValidator" && o.Success && o.Result == 1 {
-					active = true
-				}
-			}
-			if !active {
+			if !validating(c, true) {
 				ok = false
 			}
 		}
-		r.check(ok && n == 1, "C07.R5", "removal|opt-out-info", hv.pos(hv.Decl), "an opt-out of an active key registers the opt-out information", "SetOptOutInformation is not called exactly on the 'key in the validator set' arm")
+		r.check(ok && n == 1, "C07.R5", "removal|opt-out-info", hv.pos(hv.Decl), "an opt-out of an operator that is validating (current or just-replaced key in the set) registers the opt-out information", "SetOptOutInformation is not called exactly on the 'key in the validator set' arm")
+		// the other arm leaves nothing behind: the removal is completed at once (marker and all three indexes),
+		// for this operator and chain
+		okDone, nDone := true, 0
+		for _, c := range hv.CallsNamed("CompleteOperatorKeyRemovalForChainID") {
+			nDone++
+			if !validating(c, false) || len(c.Args) != 3 || !isParamOf(hv, c.Args[1]) || !isParamOf(hv, c.Args[2]) {
+				okDone = false
+			}
+		}
+		r.check(okDone && nDone == 1, "C07.R5", "removal|never-active-completes", hv.pos(hv.Decl), "an opt-out of an operator whose key never was in the validator set completes the key removal at once", "the never-validated arm of AfterOperatorKeyRemovalInitiated does not complete the removal for this operator and chain: no opt-out is scheduled that could, so the removal marker and two of the three key indexes stay forever (the indexes disagree, and the operator can never set a key again)")
 	} else {
 		r.bad("C07.R5", "removal|anchor", "-", "anchor", "AfterOperatorKeyRemovalInitiated not found")
 	}
@@ -455,7 +486,7 @@ func runC07(r *Run) {
 			}
 		}
 	}
-	if nChain < 8 {
+	if nChain < 5 {
 		r.bad("C07.R7", "chainid|count", "-", "chain-id arguments found", fmt.Sprintf("only %d chain-id arguments examined", nChain))
 	}
 }
